@@ -312,7 +312,7 @@ package httpgrpc
 //@   assert_call[C11,C01] grpc.MethodDesc.Handler : decoder_is_the_request_body: isfunc(arg2, "handleMethod.return.dec") && *binding(arg2, 0, "*encoding.Codec") == lastresult(getUnaryCodec) && *binding(arg2, 1, "*[]byte") == lastresult("ioutil.ReadAll", 0)
 //@   assert_call[C13] peer.NewContext : peer_of_the_request: arg1 == lastresult(peerFromRequest) && arg0 == req_ctx(r)
 //@   ensures[C03] handler_headers_and_trailers_copied: called("grpc.MethodDesc.Handler") ==> calls(toHeaders) == 2
-//@   assert_call[C01,C11] (http.Header).Set : only_the_protocol_headers_with_their_values: arg1 == "Allow" || arg1 == "X-GRPC-Status" || (arg1 == "Content-Type" && arg2 == contentType) || (arg1 == "Content-Length" && arg2 == fmt_d(len(b)) && lastarg("(http.Header).Set", 1) == "Content-Type")
+//@   assert_call[C01,C11] (http.Header).Set : only_the_protocol_headers_with_their_values: arg1 == "Allow" || (arg1 == "X-GRPC-Status" && arg2 == fmt_code_msg(statProto.Code, statProto.Message)) || (arg1 == "Content-Type" && arg2 == contentType) || (arg1 == "Content-Length" && arg2 == fmt_d(len(b)) && lastarg("(http.Header).Set", 1) == "Content-Type")
 //@   assert_call[C01,C11] http.ResponseWriter.Write : the_marshalled_response_after_type_and_length: arg1 == lastresult("encoding.Codec.Marshal", 0) && called("(http.Header).Set") && lastarg("(http.Header).Set", 1) == "Content-Length"
 //@   ensures[C02,C14] failure_goes_to_the_error_renderer_once: called("grpc.MethodDesc.Handler") && lastresult("grpc.MethodDesc.Handler", 1) != nil ==> calls("var:errHandler") == 1 && !called("http.ResponseWriter.Write") && !called(writeError)
 //@   ensures[C02] success_writes_the_response_once: called("grpc.MethodDesc.Handler") && lastresult("grpc.MethodDesc.Handler", 1) == nil ==> !called("var:errHandler") && ((lastresult("encoding.Codec.Marshal", 1) != nil ==> calls(writeError) == 1 && lastarg(writeError, 1) == 500 && !called("http.ResponseWriter.Write")) && (lastresult("encoding.Codec.Marshal", 1) == nil ==> calls("http.ResponseWriter.Write") == 1 && !called(writeError) && lastarg("http.ResponseWriter.Write", 1) == lastresult("encoding.Codec.Marshal", 0)))
@@ -465,9 +465,11 @@ package httpgrpc
 //
 //@ func handleMethod
 //@   ensures[C12,C16] result != nil && isfunc(result, "handleMethod.return")
+//@   assert_call[C16,C12,C10] fmt.Sprintf : full_method_name_is_slash_service_slash_method: arg0 == "/%s/%s" && len(arg1) == 2 && typeis(arg1[0], "string") && unbox(arg1[0], "string") == serviceName && typeis(arg1[1], "string") && unbox(arg1[1], "string") == desc.MethodName
 //@   modifies nothing
 //@ func handleStream
 //@   ensures[C12,C16] result != nil && isfunc(result, "handleStream.return")
+//@   assert_call[C16,C12] fmt.Sprintf : full_method_name_is_slash_service_slash_stream: arg0 == "/%s/%s" && len(arg1) == 2 && typeis(arg1[0], "string") && unbox(arg1[0], "string") == serviceName && typeis(arg1[1], "string") && unbox(arg1[1], "string") == desc.StreamName
 //@   modifies nothing
 //
 //@ func (*Server).RegisterService
